@@ -237,3 +237,62 @@ class LateNoreplyClient(Client):
 
 
 CLIENT_CLASSES["late-noreply"] = LateNoreplyClient
+
+
+def _seal(v):
+    return b"SEALED:" + bytes(v)[::-1] if isinstance(v, (bytes, bytearray)) else v
+
+
+def _unseal(v):
+    if isinstance(v, bytes):
+        if not v.startswith(b"SEALED:"):
+            return v                     # (an item somebody else stored)
+        return v[7:][::-1]
+    return v
+
+
+class SealingClient(Client):
+    """seals (here: marks and reverses) bytes values in every storing command and unseals them in every fetching command -
+    what an application does to encrypt or sign what it caches"""
+
+    def set(self, key, value, *a, **k):
+        return super().set(key, _seal(value), *a, **k)
+
+    def add(self, key, value, *a, **k):
+        return super().add(key, _seal(value), *a, **k)
+
+    def replace(self, key, value, *a, **k):
+        return super().replace(key, _seal(value), *a, **k)
+
+    def cas(self, key, value, *a, **k):
+        return super().cas(key, _seal(value), *a, **k)
+
+    def set_many(self, values, *a, **k):
+        return super().set_many({kk: _seal(v) for kk, v in dict(values).items()}, *a, **k)
+
+    set_multi = set_many
+
+    def get(self, key, *a, **k):
+        return _unseal(super().get(key, *a, **k))
+
+    def gat(self, key, *a, **k):
+        return _unseal(super().gat(key, *a, **k))
+
+    def gets(self, key, *a, **k):
+        v, c = super().gets(key, *a, **k)
+        return _unseal(v), c
+
+    def gats(self, key, *a, **k):
+        v, c = super().gats(key, *a, **k)
+        return _unseal(v), c
+
+    def get_many(self, keys):
+        return {kk: _unseal(v) for kk, v in super().get_many(keys).items()}
+
+    get_multi = get_many
+
+    def gets_many(self, keys):
+        return {kk: (_unseal(v), c) for kk, (v, c) in super().gets_many(keys).items()}
+
+
+CLIENT_CLASSES["sealing"] = SealingClient
